@@ -105,6 +105,22 @@ func VH_C17_translate_seq() {
 		vAssert("C17.translate-mod3-error", err != nil)
 		return
 	}
+	// strict mode: an error exactly when some codon is untranslatable, else the same string
+	{
+		CDs := MakeCodonDict()
+		all := true
+		for c := 0; c < n/3; c++ {
+			if _, ok := CDs[string(s[3*c:3*c+3])]; !ok {
+				all = false
+			}
+		}
+		trS, errS := Translate(string(s), true)
+		if all {
+			vAssert("C17.translate-strict-ok", errS == nil && trS == tr)
+		} else {
+			vAssert("C17.translate-strict-error-and-no-partial-result", errS != nil && trS == "")
+		}
+	}
 	vAssert("C17.translate-seq-noerr", err == nil)
 	vAssert("C17.translate-seq-len", len(tr) == n/3)
 	CD := MakeCodonDict()
